@@ -548,6 +548,8 @@ type vRun struct {
 	wfdcPend *vGateCall
 	dbPend   *vGateCall
 	calls    map[string]*vDestCall // in flight, by "rp/name/inc/b"
+
+	closeWatched bool
 }
 
 func vCallKey(rp, name string, inc, b int) string { return fmt.Sprintf("%s/%s/%d/b%d", rp, name, inc, b) }
@@ -788,6 +790,21 @@ func (r *vRun) verify(p *vProj, final bool) error {
 	}
 	if err := r.compareAtt(p); err != nil {
 		return err
+	}
+	if p.Closed && !p.CloseRet && len(p.Calls) > 0 {
+		// X02e: Close cannot have returned while destination calls are in flight (a writer goroutine is inside one).
+		// Seeing it return is definitive; the window is only an observation aid (once per behaviour), nothing is
+		// ever concluded from NOT seeing it.
+		win := time.Duration(0)
+		if !r.closeWatched {
+			r.closeWatched = true
+			win = 50 * time.Millisecond
+		}
+		select {
+		case <-d.closeDone:
+			return &vMismatch{"x02e:close-returned-early", fmt.Sprintf("Close() has returned while %d destination call(s) are still in flight %v: writer goroutines outlive Close", len(p.Calls), p.Calls)}
+		case <-time.After(win):
+		}
 	}
 	if idle || final {
 		if err := d.checkCounters(p, final); err != nil {
@@ -1228,8 +1245,12 @@ func TestVerifSubscriberReplay(t *testing.T) {
 		case *vInfra:
 			infra = append(infra, fmt.Sprintf("behaviour %d: %s", i, e.detail))
 		}
-		if len(sigs) >= in.MaxSigs || len(infra) >= 3 {
-			break
+		total := 0
+		for _, n := range sigs {
+			total += n
+		}
+		if len(sigs) >= in.MaxSigs || total >= 8 || len(infra) >= 3 {
+			break // enough evidence; every further failing behaviour costs watchdog time
 		}
 	}
 	if len(infra) > 0 && len(sigs) == 0 {
@@ -1259,12 +1280,14 @@ func TestVerifSubscriberStress(t *testing.T) {
 	sigs := map[string]int{}
 	var infra []string
 	calls := 0
-	for round := 0; round < rounds && len(sigs) < 3 && len(infra) < 3; round++ {
+	bad := 0
+	for round := 0; round < rounds && bad < 3 && len(infra) < 3; round++ {
 		seed := rnd.Int63()
 		err, n := vStressRound(t, seed, round)
 		calls += n
 		switch e := err.(type) {
 		case *vMismatch:
+			bad++
 			sigs[e.sig]++
 			if sigs[e.sig] == 1 {
 				vtrace.Mismatch(e.sig, e.detail, map[string]interface{}{"test": "stress", "seed": seed, "round": round})
